@@ -3,6 +3,7 @@
 package sctp
 
 import (
+	"context"
 	"fmt"
 	"sync"
 	"testing"
@@ -85,7 +86,7 @@ func (r *vRun) runHandshake() {
 			r.logf("e2e connectsilent 0 -> %s %d", vErrClass(err), time.Since(t0).Milliseconds())
 		case <-time.After(400 * time.Second):
 			r.logf("e2e connectsilent 0 -> timeout %d", time.Since(t0).Milliseconds())
-			r.link.ends[0].Close()
+			r.link.ends[0].fail()
 			<-done
 		}
 		return
@@ -98,7 +99,7 @@ func (r *vRun) runHandshake() {
 		}()
 		time.Sleep(50 * time.Second)
 		tc := time.Now()
-		r.link.ends[1].Close()
+		r.link.ends[1].fail()
 		select {
 		case err := <-done:
 			r.logf("e2e serverwait 1 -> %s %d", vErrClass(err), time.Since(tc).Milliseconds())
@@ -160,7 +161,7 @@ func (r *vRun) runHandshake() {
 	r.logEnd()
 	for side := 0; side < 2; side++ {
 		_ = r.as[side].Close()
-		r.link.ends[side].Close()
+		r.link.ends[side].fail()
 	}
 	rwg.Wait()
 }
@@ -319,9 +320,144 @@ func (r *vRun) runReset() {
 	r.logEnd()
 	for side := 0; side < 2; side++ {
 		_ = r.as[side].Close()
-		r.link.ends[side].Close()
+		r.link.ends[side].fail()
 	}
 	rwg.Wait()
 }
 
 func TestVerifE2EReset(t *testing.T) { vE2EMain(t, "reset") }
+
+// ---- teardown mode (C09): Close / Abort / transport failure injected right after the k-th wire
+// event of a run that goes through handshake, transfer, stream reset and shutdown, with callers
+// parked in Connect, Accept, Read, (blocking) Write, Shutdown ----------------------------------
+
+func (r *vRun) runTeardown() {
+	sc := r.sc
+	tr := &vrand{s: uint64(sc.seed)*911 + uint64(sc.idx)*31 + 17}
+	kind := []string{"close", "abort", "readfail", "writefail"}[tr.n(4)]
+	side := tr.n(2)
+	// a run has roughly 4 (handshake) + 2..200 wire events; bias to the early ones
+	at := 1 + tr.pick(tr.n(4), tr.n(12), tr.n(40), tr.n(150))
+	r.mu.Lock()
+	r.trigAt, r.trigCh = at, make(chan struct{})
+	trig := r.trigCh
+	r.mu.Unlock()
+	r.logf("e2e inject %s %d %d", kind, side, at)
+
+	var all sync.WaitGroup // every API caller of this run
+	finished := make(chan struct{})
+	connected := make(chan bool, 1)
+	all.Add(1)
+	go func() { // the workload: connect, transfer, close streams, graceful shutdown
+		defer all.Done()
+		ok := r.connect(400 * time.Second)
+		connected <- ok
+		if !ok {
+			return
+		}
+		for sd := 0; sd < 2; sd++ {
+			sd := sd
+			all.Add(1)
+			go func() { defer all.Done(); var wg sync.WaitGroup; wg.Add(1); r.acceptor(sd, &wg, 70000); wg.Wait() }()
+		}
+		var wwg sync.WaitGroup
+		for i, ss := range sc.streams {
+			s, err := r.as[ss.dir].OpenStream(ss.id, PayloadTypeWebRTCBinary)
+			if err != nil {
+				r.logf("e2e open %d %d -> %s", ss.dir, ss.id, vErrClass(err))
+				continue
+			}
+			r.logf("e2e open %d %d 0 0 0 -> nil", ss.dir, ss.id)
+			i, ss := i, ss
+			wwg.Add(1)
+			go func() {
+				defer wwg.Done()
+				seq := 0
+				for mi, m := range sc.msgs {
+					if m.stream != i {
+						continue
+					}
+					p := vPayload(uint64(sc.seed)<<32|uint64(sc.idx)<<16|uint64(mi), m.size)
+					n, err := s.WriteSCTP(p, m.ppi)
+					r.logf("e2e w %d %d %d %d %d %d -> %d %s", ss.dir, ss.id, seq, uint32(m.ppi), m.size, vHash(p), n, vErrClass(err))
+					seq++
+					if err != nil {
+						return
+					}
+				}
+				if (sc.idx+i)%2 == 0 {
+					err := s.Close()
+					r.logf("e2e close %d %d -> %s", ss.dir, ss.id, vErrClass(err))
+				}
+			}()
+		}
+		wwg.Wait()
+		time.Sleep(time.Duration(tr.n(3000)) * time.Millisecond)
+		ctx, cancel := context.WithTimeout(context.Background(), 300*time.Second)
+		defer cancel()
+		err := r.as[0].Shutdown(ctx)
+		r.logf("e2e shutdown 0 -> %s %d", vErrClass(err), time.Since(r.link.start).Milliseconds())
+	}()
+	go func() { all.Wait(); close(finished) }()
+
+	injected := false
+	select {
+	case <-trig:
+		injected = true
+	case <-finished: // the run ended before the k-th event
+	}
+	t0 := time.Now()
+	if injected {
+		a := r.as[side]
+		switch kind {
+		case "close":
+			if a != nil {
+				err := a.Close()
+				r.logf("e2e closecall %d -> %s", side, vErrClass(err))
+			} else {
+				r.link.ends[side].fail() // still inside the constructor: all we can do is fail the transport
+			}
+		case "abort":
+			if a != nil {
+				a.Abort("verif-abort-reason")
+				r.logf("e2e abortcall %d -> done", side)
+			} else {
+				r.link.ends[side].fail()
+			}
+		case "readfail":
+			r.link.ends[side].fail()
+		case "writefail":
+			r.link.ends[side].failWrite.Store(true)
+			// a write failure is only noticed on the next write; make sure there is one
+			if a != nil {
+				a.lock.Lock()
+				a.awakeWriteLoop()
+				a.lock.Unlock()
+				a.ActiveHeartbeat()
+			}
+		}
+		r.logf("e2e injected %s %d %d", kind, side, time.Since(r.link.start).Milliseconds())
+	}
+	select {
+	case <-finished:
+		r.logf("e2e unblocked -> true %d", time.Since(t0).Milliseconds())
+	case <-time.After(120 * time.Second):
+		r.logf("e2e unblocked -> false %d", time.Since(t0).Milliseconds())
+	}
+	select {
+	case <-connected:
+	default:
+	}
+	// repeated Close calls are harmless
+	for sd := 0; sd < 2; sd++ {
+		if a := r.as[sd]; a != nil {
+			e1 := a.Close()
+			e2 := a.Close()
+			r.logf("e2e reclose %d -> %s %s", sd, vErrClass(e1), vErrClass(e2))
+		}
+		r.link.ends[sd].fail()
+	}
+	<-finished
+}
+
+func TestVerifE2ETeardown(t *testing.T) { vE2EMain(t, "teardown") }
